@@ -5,6 +5,7 @@ package internal
 import (
 	"context"
 	"fmt"
+	"io"
 	"runtime"
 	"sort"
 	"strings"
@@ -23,7 +24,7 @@ import (
 // Used by C02 (accounting), C05 (notifications) and C04(b) (reclamation).
 
 type plStep struct {
-	Op   string `json:"op"` // set | del | get | deliver | tick | race | quiesce
+	Op   string `json:"op"` // set | del | get | deliver | tick | race | quiesce | save
 	K    int    `json:"k,omitempty"`
 	Cost int    `json:"cost,omitempty"`
 	TTL  int64  `json:"ttl,omitempty"`  // ns; 0 = none
@@ -232,6 +233,8 @@ type plRun struct {
 	batch             []*Entry[int, int] // entries hit since the read stripe was last drained (stripe 0, 16 slots)
 	batchKeys         []int              // the key each of them had when it was hit (the object may be recycled before the drain)
 	drains            int
+	saves             int
+	realHits          uint64       // upper bound of the hits that really happened (Gets answered from the cache)
 	keyReads          map[int]int  // hits per key over the whole case (a buffered hit on an earlier incarnation of the same key may legitimately be credited to the key's next incarnation: same key, same hash)
 	nCalls            atomic.Int64 // listener calls so far (read by the Wait caller of a marker batch)
 	slow              atomic.Bool  // the listener sleeps 300 us per call while a marker batch is applied
@@ -417,6 +420,7 @@ func (r *plRun) apiLoad(k, cost int, ttl int64) {
 	_, _ = r.ls.Get(context.Background(), k)
 	e := r.mapGet(k)
 	if !r.loaderRan {
+		r.realHits++
 		if in := r.resident[k]; in != nil {
 			in.reads++ // answered from the cache: a hit
 		}
@@ -848,6 +852,7 @@ func execPipelineInner(c plCase, x *verifkit.Ctx, accounting, notify, reclaim bo
 				he := r.mapGet(st.K)
 				pre := uint(r.s.policy.hitsInSample) + uint(r.s.policy.missesInSample)
 				if _, ok := r.s.Get(st.K); ok {
+					r.realHits++
 					if in := r.resident[st.K]; in != nil {
 						in.reads++
 					}
@@ -899,9 +904,21 @@ func execPipelineInner(c plCase, x *verifkit.Ctx, accounting, notify, reclaim bo
 			if f := r.quiesce([]int{st.I}); f != nil {
 				return f
 			}
+		case "save":
+			// SaveCache in the middle of everything (it takes the policy lock and every shard lock and
+			// must leave the cache as it found it)
+			if err := r.s.Persist(7, io.Discard); err != nil {
+				return r.failf("pipeline/save-error", "SaveCache failed: %v", err)
+			}
+			r.saves++
 		}
 		if x.Excluded() {
 			return nil
+		}
+		if r.readOracle && r.s.policy.hitsInSample > r.realHits {
+			// the policy counts the read events it receives since the last climber period; each delivered
+			// event is one real hit delivered once, so the count can never exceed the hits that happened
+			return r.failf("reads/more-events-than-hits", "after step %d (%s) the policy has received %d read events in the current sample period, but only %d Gets have been answered from the cache so far (%d SaveCache calls): events were invented or delivered more than once", i, st.Op, r.s.policy.hitsInSample, r.realHits, r.saves)
 		}
 		if f := r.afterStep(st.Op, st.K); f != nil {
 			return f
@@ -1136,6 +1153,16 @@ func TestVerifC08Reads(t *testing.T) {
 			n := rapid.IntRange(1, 12).Draw(t, "staleHits")
 			sc := []plStep{{Op: "set", K: b, Cost: 1}, {Op: "set", K: d, Cost: 1}, {Op: "set", K: a, Cost: 1, TTL: 1000000}, {Op: "quiesce"},
 				{Op: "get", K: a, N: n}, {Op: "tick", Dt: 2000000000}, {Op: "quiesce"}, {Op: "get", K: b, N: 16 - n}, {Op: "get", K: d, N: 16}, {Op: "quiesce"}}
+			// SaveCache calls between the steps (seeded C08g: a save that applies the parked reads without
+			// consuming them), and in an eighth of the cases right after hits were parked (a save allocates its 4 MiB block buffers, so they are rationed)
+			for i, ns := 0, rapid.SampledFrom([]int{0, 0, 0, 0, 0, 0, 0, 0, 0, 1}).Draw(t, "saves"); i < ns && len(c.Steps) > 0; i++ {
+				at := rapid.IntRange(0, len(c.Steps)).Draw(t, "saveAt")
+				c.Steps = append(c.Steps[:at], append([]plStep{{Op: "save"}}, c.Steps[at:]...)...)
+			}
+			if rapid.IntRange(0, 7).Draw(t, "parkedSave") == 0 {
+				m := rapid.IntRange(1, 15).Draw(t, "parked")
+				sc = append(sc, plStep{Op: "get", K: b, N: m}, plStep{Op: "save"}, plStep{Op: "save"}, plStep{Op: "get", K: d, N: 16 - m})
+			}
 			c.Steps = append(sc, c.Steps...)
 			return c
 		},
@@ -1149,7 +1176,7 @@ func TestVerifC08Reads(t *testing.T) {
 			}
 			return f
 		},
-		Rule:        "C08 (delivered reads): the pipeline-owner generator (entry pool on in half of the cases) preceded by the scenario 'n hits on a TTL'd key stay buffered, the key expires, 16-n hits on a key in the main region fill the stripe'; all hits go to stripe 0, whose 16th hit drains it; right after every drain each hit entry that is still the tracked, not removed entry of its key and lives in the main region must be in the protected region (the policy defers demotions to the next insert), and no entry whose key was never hit and whose cost never changed may be there",
+		Rule:        "C08 (delivered reads): the pipeline-owner generator (entry pool on in half of the cases) preceded by the scenario 'n hits on a TTL'd key stay buffered, the key expires, 16-n hits on a key in the main region fill the stripe'; all hits go to stripe 0, whose 16th hit drains it; right after every drain each hit entry that is still the tracked, not removed entry of its key and lives in the main region must be in the protected region (the policy defers demotions to the next insert), and no entry whose key was never hit and whose cost never changed may be there; SaveCache is called between steps in a tenth of the cases and twice right after 1..15 hits were parked in an eighth, and after every step the number of read events the policy has counted in its current sample period must not exceed the number of Gets answered from the cache so far",
 		Assumptions: plAssumptions,
 	})
 }
